@@ -741,6 +741,9 @@ func runThroughWire(spec *sess.Spec, label string) (*sess.Outcome, int, []findin
 	var fs []finding
 	seen := map[string]bool{}
 	count := 0
+	// one long-lived Message value per recipient, as in a receive loop `var m protocol.Message; for { m.UnmarshalBinary(frame) }`:
+	// what a frame decodes to must not depend on what the value held before
+	reused := map[party.ID]*protocol.Message{}
 	if len(startErr) == 0 {
 		net.Flush()
 		for steps := 0; len(net.Queue) > 0 && steps < 100000; steps++ {
@@ -757,6 +760,26 @@ func runThroughWire(spec *sess.Spec, label string) (*sess.Outcome, int, []findin
 				if !seen[fld] {
 					seen[fld] = true
 					fs = append(fs, finding{rtSig(k.name, fld+" differs"), fmt.Sprintf("%s: message %s: after MarshalBinary+UnmarshalBinary the field %s differs", spec.Name, d.M, fld)})
+				}
+			}
+			ru := reused[d.To]
+			if ru == nil {
+				ru = &protocol.Message{}
+				reused[d.To] = ru
+			}
+			if panicked, pmsg, frame := vkit.Try(func() {
+				if err := ru.UnmarshalBinary(enc); err != nil && !seen["reuse-err"] {
+					seen["reuse-err"] = true
+					fs = append(fs, finding{rtSig(k.name, "re-used receiver refuses a valid frame"), fmt.Sprintf("%s: message %s: UnmarshalBinary into a Message value that held an earlier message fails: %v", spec.Name, d.M, err)})
+				}
+			}); panicked && !seen["reuse-panic"] {
+				seen["reuse-panic"] = true
+				fs = append(fs, finding{"panic|protocol.Message|reuse|" + frame, pmsg})
+			}
+			for _, fld := range msgEqual(d.M, ru) {
+				if !seen["reuse:"+fld] {
+					seen["reuse:"+fld] = true
+					fs = append(fs, finding{rtSig(k.name, fld+" differs when the receiving value is re-used"), fmt.Sprintf("%s: message %s: decoded into a Message value that held an earlier message of the session, the field %s differs from the sent one (it kept the earlier message's value)", spec.Name, d.M, fld)})
 				}
 			}
 			if !seen["reenc"] {
